@@ -373,6 +373,32 @@ class FrameLoop(S.LoopContract):
             Heap.of(I.pre).install(st)
 
 
+class PrepassArgLoop(FrameLoop):
+    """the argument loop of Program.run's pre-pass: FrameLoop, and every argument whose name is a declared input is cleaned
+    by that input's parameter, with the program and the argument's own line (C12: rejection before any execution; C11)"""
+
+    def check(self, eng, pre, st, j, seq, label):
+        FrameLoop.check(self, eng, pre, st, j, seq, label)
+        cmd, arg = st.env.get("command"), st.env.get("argument")
+        if not (isinstance(cmd, Sym) and isinstance(arg, Sym)):
+            raise Unsupported("pre-pass loop variables are not `command` / `argument`")
+        c, a = Val.ref(cmd.t), Val.ref(arg.t)
+        from .dyn import DHAS_, DGET
+        did = Val.did(FLD("inputs")(c))
+        declared = DHAS_(did, FLD("name")(a))
+        evs = [ev for ev in st.log[len(pre.log):] if ev[0] == "param-clean"]
+        m = {"clause": "prepass"}
+        hits = [z3.And(ev[1] == DGET(did, FLD("name")(a)), ev[2] == FLD("value")(a)) for ev in evs]
+        eng.oblige(st, label + "/every declared argument is cleaned in the pre-pass", z3.Implies(declared, z3.Or(*hits) if hits else z3.BoolVal(False)),
+                   kind="loop", meta=m, assume_after=False)
+        lines = [z3.And(h, z3.BoolVal(False) if ev[4] is None else eng.to_dyn(st, ev[4]) == FLD("lineno")(a)) for h, ev in zip(hits, evs)]
+        eng.oblige(st, label + "/with the argument's own line", z3.Implies(declared, z3.Or(*lines) if lines else z3.BoolVal(False)), kind="loop",
+                   meta={"clause": "lineno"}, assume_after=False)
+        progs = [z3.And(h, z3.BoolVal(ev[3] is st.env.get("self") or (isinstance(ev[3], Ref) and ev[3] == st.env.get("self")))) for h, ev in zip(hits, evs)]
+        eng.oblige(st, label + "/against this program", z3.Implies(declared, z3.Or(*progs) if progs else z3.BoolVal(False)), kind="loop", meta=m,
+                   assume_after=False)
+
+
 class LeafLoop(S.LoopContract):
     """Inv and Mono since loop entry (commands run, nothing else changes)."""
 
@@ -429,6 +455,8 @@ def register_loops(repo):
                 S.LOOPS[key] = LeafLoop()
             else:
                 S.LOOPS[key] = AllLoop()
+        elif isinstance(n, ast.For) and isinstance(n.iter, ast.Attribute) and n.iter.attr == "arguments" and run_loops and i < min(run_loops):
+            S.LOOPS[key] = PrepassArgLoop(sorted(assigned_names(n)))
         else:
             S.LOOPS[key] = FrameLoop(sorted(assigned_names(n)))
     return {"loops": len(loops), "run_loops": run_loops}
@@ -620,6 +648,10 @@ def verify_program_run(eng, rerun=False):
             eng.oblige(s1, label + "/raises_only(MPilotError):%s" % nm, is_mp, kind="raises", meta=dict(m("raises_only"), exc_msg=msg), assume_after=False)
             eng.oblige(s1, label + "/raises=>Inv", Inv(eng, h), kind="raises", meta=m("inv"), assume_after=False)
             eng.oblige(s1, label + "/raises=>Mono", Mono(eng, h0, h), kind="raises", meta=m("mono"), assume_after=False)
+            origin = exc.fields.get("origin", "") if isinstance(exc, ExcSym) and getattr(exc, "fields", None) else ""
+            if origin == "clean@" + key:
+                # C12: a rejection by a parameter cleaner called from Program.run itself (the pre-pass) precedes every execution
+                eng.oblige(s1, label + "/pre-pass rejection precedes every execution", z3.BoolVal(not executed), kind="raises", meta=m("prepass"), assume_after=False)
             if not executed:
                 # C12: a rejection that happens before anything executed leaves every counter and result untouched
                 eng.oblige(s1, label + "/rejected-before-execution=>nothing-computed", h.same_as(h0) if not any(
